@@ -115,8 +115,14 @@ func genC09Node(o *hx.Out, r *rand.Rand, d *dialect.Dialect, drw *dialect.ReadWr
 		if c.v2 {
 			ver = gomavlib.V2
 		}
+		// every third node has an incoming key only (it checks what it receives; what it sends is
+		// as configured: version, no signature)
+		var inKey *frame.V2Key
+		if i%3 == 1 {
+			inKey = frame.NewV2Key([]byte("incoming only"))
+		}
 		node, err := gomavlib.NewNode(gomavlib.NodeConf{Endpoints: []gomavlib.EndpointConf{gomavlib.EndpointCustom{ReadWriteCloser: pipe}},
-			Dialect: d, OutVersion: ver, OutSystemID: c.sys, OutComponentID: c.comp, HeartbeatDisable: true})
+			Dialect: d, OutVersion: ver, OutSystemID: c.sys, OutComponentID: c.comp, HeartbeatDisable: true, InKey: inKey})
 		if err != nil {
 			o.Add("node originated", "NODE-INIT-FAILED", append(append([]string{"swrite"}, c.fields()...), "-")...)
 			continue
